@@ -71,10 +71,29 @@ for d in sorted(os.listdir(sd)) if os.path.isdir(sd) else []:
 out.append("")
 
 T_SEEDS = "\n".join(out)
+# hand-made mutants
+out = []
+mp = R + "/mutants/matrix.txt"
+if os.path.exists(mp):
+    rows = [l.rstrip("\n") for l in open(mp) if l.strip()]
+    det = [r for r in rows if "DETECTED" in r or ("BROKEN" in r and "first: key=" in r)]  # BROKEN + a VIOLATION key: the mutant also kills shards
+    gone = [r for r in rows if "no longer applies" in r]
+    rest = [r for r in rows if r not in det and r not in gone]
+    out.append("\n**Hand-made mutants (regression).** While writing a harness its owner mutated the library code the property is anchored in "
+               "(`mutants/<ID>/<name>.diff` + one-line `.txt`). `tools/mutants_matrix.sh` re-runs all of them against the current quick tiers "
+               "(`mutants/matrix.txt`): %d files, %d detected (one of them, C06/m11, prints its VIOLATION lines and then corrupts the heap so that the run ends as BROKEN, exit 2), %d no longer apply to /repo HEAD (bundles of proposed fixes kept for reference, or the "
+               "mutated code was repaired since), %d silent:\n" % (len(rows), len(det), len(gone), len(rest)))
+    for r in rest:
+        name = r.split(" -> ")[0]
+        tp = R + "/mutants/" + name + ".txt"
+        why = open(tp, errors="replace").read().strip().replace("\n", " ")[:260] if os.path.exists(tp) else ""
+        out.append("* `%s` - %s" % (name, why))
+    out.append("")
+T_MUT = "\n".join(out)
 raw = open(R + "/tools/asbuilt_text.md").read()
 for pid in checks:
     raw = raw.replace("{{N_%s}}" % pid, str(known[pid]))
-txt = raw.replace("{{TABLE_CHECKS}}", T_CHECKS).replace("{{TABLE_FIXES}}", T_FIXES).replace("{{TABLE_SEEDS}}", T_SEEDS) + "\n"
+txt = raw.replace("{{TABLE_CHECKS}}", T_CHECKS).replace("{{TABLE_FIXES}}", T_FIXES).replace("{{TABLE_SEEDS}}", T_SEEDS).replace("{{TABLE_MUTANTS}}", T_MUT) + "\n"
 p = R + "/DESIGN.md"
 s = open(p).read()
 B, E = "<!-- ASBUILT-BEGIN -->", "<!-- ASBUILT-END -->"
